@@ -658,6 +658,32 @@ func Execute(c Case) (out Outcome) {
 		x := q[0]
 		q = q[1:]
 		bz := x.m.Bytes
+		if strings.HasPrefix(c.Dev.Op, "mirror-all:") && x.m.Sender == c.Deviator {
+			// whole-identity replay: EVERY message of the deviator is replaced by the message of the same type
+			// that node src emitted (for this recipient where there is one), handed over under the deviator's name
+			var src int
+			fmt.Sscanf(c.Dev.Op, "mirror-all:%d", &src)
+			var rep []byte
+			for _, em := range nw.Nodes[src].Emitted {
+				if em.Type != x.m.Type {
+					continue
+				}
+				if rep == nil {
+					rep = em.Bytes
+				}
+				if len(em.To) == 1 && em.To[0] == x.to {
+					rep = em.Bytes
+					break
+				}
+			}
+			if rep != nil {
+				out.Applied = true
+				bz = rep
+			}
+			res := nw.DeliverRaw(x.to, bz, nw.Nodes[x.m.Sender].ID, x.m.Broadcast, x.m.Ref())
+			push(res.NewMsg)
+			continue
+		}
 		if recommit != nil && x.m.Sender == c.Deviator && !decided[x.m] {
 			switch x.m.Type {
 			case recommit.CommitType:
